@@ -289,10 +289,10 @@ def outRowOf (poly : List (LTerm × Rat)) (order : List Label) (reduction : List
 
 /-- the `info` of the returned sample set: the child's, then `reduction`, then `penalty_strength` (when given) -/
 def outInfo (reduction : List (Pair × Label)) (strength : Option Rat) (info : List (String × String)) : List (String × InfoVal) :=
-  let info1 := setInfo (info.map (fun e => (e.1, InfoVal.opaque e.2))) "reduction" (.reduction reduction)
+  let info1 := setInfo (info.map (fun e => (e.1, InfoVal.opaque e.2))) Generated.HocLayout.reductionKey (.reduction reduction)
   match strength with
   | none => info1
-  | some q => setInfo info1 "penalty_strength" (.strength q)
+  | some q => setInfo info1 Generated.HocLayout.strengthKey (.strength q)
 
 theorem polymorphRecord_ok (poly : List (LTerm × Rat)) (order : List Label) (reduction : List (Pair × Label))
     (strength : Option Rat) (keep discard : Bool) (resp : SampleSetM) (out : OutSet)
@@ -300,7 +300,7 @@ theorem polymorphRecord_ok (poly : List (LTerm × Rat)) (order : List Label) (re
     out.rows = (resp.rows.filter (fun r => !discard || penaltySatisfied reduction (rowFn resp.vars r.sample))).map
                  (outRowOf poly order reduction keep discard resp.vars)
     ∧ out.vars = (if keep then resp.vars else order)
-    ∧ out.fields = ["sample", "energy", "penalty_satisfaction"] ++ resp.names
+    ∧ out.fields = Generated.HocLayout.headFields ++ resp.names
     ∧ out.vt = resp.vt
     ∧ out.info = outInfo reduction strength resp.info
     ∧ out.satDtype = (if discard then
@@ -394,7 +394,7 @@ theorem polymorphRecord_error_iff (poly : List (LTerm × Rat)) (order : List Lab
     (∃ e, polymorphRecord poly order reduction strength keep discard resp = .error e)
       ↔ ((∃ c ∈ reduction, c.1.1 ∉ resp.vars ∨ c.1.2 ∉ resp.vars ∨ c.2 ∉ resp.vars)
           ∨ (∃ v ∈ polyVars poly, v ∉ resp.vars)
-          ∨ "penalty_satisfaction" ∈ resp.names) := by
+          ∨ (∃ n ∈ resp.names, n ∈ Generated.HocLayout.headFields)) := by
   have hall : (poly.all (fun tb => tb.1.all (fun v => (indexOf? v resp.vars).isSome)) = true) ↔ ∀ v ∈ polyVars poly, v ∈ resp.vars := by
     simp only [List.all_eq_true, indexOf?_isSome_iff]
     constructor
@@ -446,18 +446,21 @@ theorem polymorphRecord_error_iff (poly : List (LTerm × Rat)) (order : List Lab
       | none => exact absurd hs hsel
       | some sel =>
         simp only
-        by_cases hd : resp.names.contains "penalty_satisfaction" = true
+        have hdup : (resp.names.any (fun n => Generated.HocLayout.headFields.contains n) = true)
+            ↔ ∃ n ∈ resp.names, n ∈ Generated.HocLayout.headFields := by
+          simp only [List.any_eq_true, List.contains_iff_mem]
+        by_cases hd : resp.names.any (fun n => Generated.HocLayout.headFields.contains n) = true
         · rw [if_pos hd]
           simp only [Except.error.injEq, exists_eq', true_iff]
           right; right
-          simpa using hd
+          exact hdup.1 hd
         · rw [if_neg hd]
           constructor
           · rintro ⟨e, he⟩; simp at he
           · rintro (hh | hh | hh)
             · exact absurd hh hno
             · obtain ⟨v, hv, hnv⟩ := hh; exact absurd (hpv2 v hv) hnv
-            · exact absurd (by simpa using hh) hd
+            · exact absurd (hdup.2 hh) hd
     · rw [if_neg hp]
       simp only [Except.error.injEq, exists_eq', true_iff]
       right; left
